@@ -170,6 +170,7 @@ func cmdCheck(args []string) int {
 			cfg.MaxDecisions = e.MaxDecisions
 		}
 		cfg.NoTimers = e.NoTimers
+		cfg.TimerHorizonNs = int64(e.TimerHorizonS) * 1e9
 		cfg.RaceCheck = e.RaceCheck
 		cfg.StopOnViolation = e.Witness
 		eng.cfg = cfg
